@@ -140,6 +140,7 @@ func (e *c19HintEdge) IntermediatePayloadSize(amount lnwire.MilliSatoshi,
 type c19Relax struct {
 	from, to int
 	amt      uint64
+	p        float64
 }
 
 type c19Case struct {
@@ -809,20 +810,14 @@ func (c *c19) run(cs *c19Case, g Graph, sess GraphSessionFactory,
 	// The probability source of routerrpc's QueryRoutes without mission
 	// control: ignored nodes / pairs get probability zero, all else one.
 	logOn := true
-	prob := func(from, to route.Vertex, amt lnwire.MilliSatoshi,
-		_ btcutil.Amount) float64 {
-
-		if logOn {
-			relaxLog = append(relaxLog, c19Relax{idx[from], idx[to],
-				uint64(amt)})
-		}
+	probVal := func(from, to route.Vertex) float64 {
 		if _, ok := ignN[from]; ok {
 			return 0
 		}
 		if _, ok := ignP[DirectedNodePair{From: from, To: to}]; ok {
 			return 0
 		}
-		if cs.probSalt != 0 {
+		if cs.probSalt > 0 {
 			table := []float64{1, 0.95, 0.5, 1, 0.9, 0.75, 1, 0.6}
 			k := idx[from]*7 + idx[to]*3 + cs.probSalt
 
@@ -836,6 +831,20 @@ func (c *c19) run(cs *c19Case, g Graph, sess GraphSessionFactory,
 			return 1 - float64(k)/float64(1<<20)
 		}
 		return 1
+	}
+	// The probability source doubles as the trace hook of the real search:
+	// findPath calls it once per processEdge that passed the fee limit, in
+	// the order of the main loop, with (fromVertex, pivot, amountToSend).
+	prob := func(from, to route.Vertex, amt lnwire.MilliSatoshi,
+		_ btcutil.Amount) float64 {
+
+		v := probVal(from, to)
+		if logOn {
+			relaxLog = append(relaxLog, c19Relax{idx[from], idx[to],
+				uint64(amt), v})
+		}
+
+		return v
 	}
 	var metadata []byte
 	if cs.metaLen > 0 {
@@ -1009,6 +1018,32 @@ func (c *c19) run(cs *c19Case, g Graph, sess GraphSessionFactory,
 		}
 	}()
 
+	// The whole search as the real findPath performed it (in-memory graphs,
+	// whose channel iteration order the driver knows): attempt cost, minimum
+	// probability, payload size of the final hop from the real
+	// lastHopPayloadSize, then every relaxation that reached the probability
+	// source, in order.
+	if cs.kind == "mem" && status != "panic" {
+		pen := float64(cfg.AttemptCost+
+			lnwire.MilliSatoshi(cs.amt)*
+				lnwire.MilliSatoshi(cfg.AttemptCostPPM)/1000000) *
+			(1/(0.5-0.0/2) - 1)
+		lastPay, lerr := lastHopPayloadSize(
+			&RestrictParams{Metadata: metadata},
+			int32(cs.height)+int32(cs.finalDelta),
+			lnwire.MilliSatoshi(cs.amt),
+		)
+		if lerr == nil {
+			c.pf("search penbits=%d minbits=%d lastpay=%d maxpay=%d "+
+				"nrelax=%d", math.Float64bits(pen),
+				math.Float64bits(cfg.MinProbability), lastPay,
+				sphinx.MaxRoutingPayloadSize, len(relaxLog))
+			for _, e := range relaxLog {
+				c.pf("relax %d %d %d %d", e.from, e.to, e.amt,
+					math.Float64bits(e.p))
+			}
+		}
+	}
 	switch {
 	case status == "panic":
 		c.pf("find => panic")
@@ -1063,8 +1098,8 @@ func (c *c19) run(cs *c19Case, g Graph, sess GraphSessionFactory,
 			}
 			seen[k] = true
 		}
-		c.pf("find => ok nedges=%d probok=%d relaxdup=%d", len(res.path),
-			probOK, relaxDup)
+		c.pf("find => ok nedges=%d probok=%d relaxdup=%d probbits=%d",
+			len(res.path), probOK, relaxDup, math.Float64bits(res.prob))
 		// What the search itself used when it relaxed each edge of the
 		// returned chain: the amount passed to the probability source (all
 		// edges) and, where every outgoing edge of the tail node is a route
